@@ -273,7 +273,7 @@ func cmdCheck(args []string) {
 			continue
 		}
 		o := runOpts{repo: *repo, verif: *verif, harness: h.Name, params: ts.Params, shards: ts.Shards, shardDepth: ts.ShardDepth,
-			timeoutMs: ts.TimeoutMs, known: known, verbose: *verbose, maxBack: ts.Unwind}
+			timeoutMs: ts.TimeoutMs, known: known, verbose: *verbose, maxBack: ts.Unwind, stopOnViol: true}
 		if o.params == nil {
 			o.params = map[string]int64{}
 		}
